@@ -319,7 +319,7 @@ def run_case(case, ctx):
 
 def strategies(tier):
     big = tier == "thorough"
-    anytext = st.text(alphabet=st.one_of(st.sampled_from(list("\n\r\"\\ ,\tab{}[]:\u2028é𝄞\x00")), st.characters(blacklist_categories=("Cs",))), max_size=6)
+    anytext = st.text(alphabet=st.one_of(st.sampled_from(list("\n\r\"\\ ,\tab{}[]:\u2028é𝄞\x00\x85\ud83d\udcff")), st.characters(blacklist_categories=("Cs",))), max_size=6)
     jsonv = st.recursive(st.none() | st.booleans() | st.integers(-10 ** 40, 10 ** 40) | st.floats(allow_nan=False, allow_infinity=False) | anytext,
                          lambda ch: st.lists(ch, max_size=3) | st.dictionaries(anytext, ch, max_size=3), max_leaves=6)
     ftext = st.text(alphabet=st.one_of(st.sampled_from(list(",\t\"' \\;ab\x00\u2028é𝄞|")),
